@@ -767,7 +767,7 @@ Definition current_cfg : cfg := fun s =>
   | SGInsert => true            (* /repo dff454e *)
   | SNodeOutputsDup => true     (* /repo dff454e *)
   | SNodeOutputsOwned => false  (* open: known finding node-output-owned *)
-  | SGraphNew => false          (* open: known finding graph-ctor-partial *)
+  | SGraphNew => true           (* /repo 680d931 *)
   end.
 
 (* the code as it was before any repair (pinned commit of the design phase): every defect present *)
